@@ -44,6 +44,10 @@ inductive Phase where
   | returned (timedOut : Bool) (t : Nat)
 deriving Repr, DecidableEq
 
+def Phase.isReturned : Phase → Bool
+  | .returned _ _ => true
+  | _ => false
+
 /-- `leader` is the process `cmd.Start` created; `others` everything it (transitively) forked. -/
 structure St where
   now : Nat
@@ -136,30 +140,38 @@ def initScript (deadline : Nat) (sc : Script) : St :=
   { init deadline sc.leaderIgnoresTerm with
     others := sc.children.map fun c => ⟨true, true, c.holdsPipe, c.ignoresTerm⟩ }
 
-/-- The next instant at which anything is scheduled: a scripted exit, the deadline, or the supervisor's
+/-- Every instant at which something is scheduled: the scripted exits, the deadline, the supervisor's
     current timer. -/
-def nextTime (tm : Timing) (sc : Script) (s : St) : Nat :=
-  let timer := match s.phase with
-    | .termSent t => [t + tm.termWait]
-    | .killSent t => [t + tm.killWait]
-    | _ => []
-  let cands := (sc.leaderExitAt :: s.deadline :: sc.children.map (·.exitAt)) ++ timer
-  match (cands.filter (· > s.now)) with
-  | [] => s.now + 1
+def candidates (tm : Timing) (sc : Script) (s : St) : List Nat :=
+  (sc.leaderExitAt :: s.deadline :: sc.children.map (·.exitAt)) ++
+    (match s.phase with
+     | .termSent t => [t + tm.termWait]
+     | .killSent t => [t + tm.killWait]
+     | _ => [])
+
+/-- The smallest candidate later than `now` (`now + 1` when there is none). -/
+def minAbove (cands : List Nat) (now : Nat) : Nat :=
+  match cands.filter (· > now) with
+  | [] => now + 1
   | c :: cs => cs.foldl min c
+
+/-- The next instant at which anything is scheduled. -/
+def nextTime (tm : Timing) (sc : Script) (s : St) : Nat := minAbove (candidates tm sc s) s.now
+
+/-- One supervisor step if one is due. -/
+def supOpt (tm : Timing) (s : St) : St := match sup tm s with | some s' => s' | none => s
+
+/-- Up to three supervisor steps (there are at most three phase changes), stopping when it blocks. -/
+def sup3 (tm : Timing) (s : St) : St := supOpt tm (supOpt tm (supOpt tm s))
 
 /-- Run for at most `fuel` events: at each instant first the scripted exits, then supervisor steps until
     it blocks, then jump to the next scheduled instant. -/
 def runScript (tm : Timing) (sc : Script) : Nat → St → St
   | 0, s => s
   | fuel + 1, s =>
-    let s := applyExits sc s
-    let s := match sup tm s with | some s' => s' | none => s
-    let s := match sup tm s with | some s' => s' | none => s
-    let s := match sup tm s with | some s' => s' | none => s
-    match s.phase with
-    | .returned _ _ => s
-    | _ => runScript tm sc fuel { s with now := nextTime tm sc s }
+    let s3 := sup3 tm (applyExits sc s)
+    if s3.phase.isReturned then s3
+    else runScript tm sc fuel { s3 with now := nextTime tm sc s3 }
 
 /-- Group members still alive. -/
 def St.survivors (s : St) : Nat := (s.procs.filter fun p => p.alive && p.inGroup).length
